@@ -65,4 +65,43 @@ def decodeUtf8 (s : List Nat) : Int × Nat :=
         | none => (DECODE_ERROR, 1)
       else (DECODE_ERROR, 1)
 
+/-! ## `ts_decode_utf16_le` / `ts_decode_utf16_be` (lib/src/unicode.h, `U16_NEXT_LE/BE`) -/
+
+/-- One 16-bit code unit from two bytes. -/
+def unit16 (be : Bool) (a b : Nat) : Nat := if be then a * 256 + b else b * 256 + a
+
+/-- `U16_SURROGATE_OFFSET` = `(0xd800<<10) + 0xdc00 - 0x10000`. -/
+def SURROGATE_OFFSET : Nat := 56613888
+
+/-- `ts_decode_utf16_le/be(string, length, &code_point)` = `(code_point, return value)`: fewer than two
+bytes are an error of that length; a lead surrogate followed (within `length / 2` units) by a trail
+surrogate is a supplementary code point of 4 bytes; anything else — unpaired surrogates included — is
+the unit itself, 2 bytes.
+`swapTrail = true` is the decoder as it should be (fixes/C09-utf16-trail-byte-order.diff).
+`swapTrail = false` is `U16_NEXT_LE/BE` of unicode.h as it is: only the FIRST unit goes through
+`le16toh`/`be16toh`, the trail unit `__c2 = (s)[(i)]` is read in HOST order (little-endian here), tested
+and combined unswapped — for the byte order that differs from the host's (BE on x86/ARM64) a surrogate
+pair is therefore not recognised. -/
+def decodeUtf16 (be : Bool) (s : List Nat) (swapTrail : Bool := true) : Int × Nat :=
+  match s with
+  | a :: b :: rest =>
+    let c := unit16 be a b
+    if 0xD800 ≤ c ∧ c < 0xDC00 then
+      match rest with
+      | a2 :: b2 :: _ =>
+        let c2 := if swapTrail then unit16 be a2 b2 else unit16 false a2 b2
+        if 0xDC00 ≤ c2 ∧ c2 < 0xE000 then ((c * 1024 + c2 - SURROGATE_OFFSET : Nat), 4) else (c, 2)
+      | _ => (c, 2)
+    else (c, 2)
+  | _ => (DECODE_ERROR, s.length)
+
+/-- UTF-16 encoding of a code point (as bytes). -/
+def encodeUtf16 (be : Bool) (c : Nat) : List Nat :=
+  let bytes (u : Nat) : List Nat := if be then [u / 256, u % 256] else [u % 256, u / 256]
+  if c < 0x10000 then bytes c
+  else bytes (0xD800 + (c - 0x10000) / 1024) ++ bytes (0xDC00 + (c - 0x10000) % 1024)
+
+/-- A Unicode scalar value. -/
+def Scalar (c : Nat) : Prop := c < 0x110000 ∧ ¬ (0xD800 ≤ c ∧ c < 0xE000)
+
 end TsVerif.Utf
